@@ -32,7 +32,7 @@ def run(prop, verbose=False):
     for mp in metas:
         with open(mp) as fh:
             meta = json.load(fh)
-        exp = meta.get("detected_by", {}).get(prop)
+        exp = [r for r in (meta.get("detected_by", {}).get(prop) or []) if not r.startswith("ANALYSIS-BROKEN")]
         if not exp:
             continue
         sd = os.path.dirname(mp)
